@@ -25,9 +25,14 @@ type Cfg struct {
 	Top  int
 	Logs []Mod
 	Apps []App
+	Stor Mod // the storage module: Key 0 = none configured, 1..3 = probe storage with that identity
 }
 
 type Env struct {
+	// Via: how a load is submitted. 0 POST /config/ · 1 caddy.Load(force) · 2 POST /load (JSON) ·
+	// 3 POST /load (JSON, Cache-Control: must-revalidate) · 4 POST /load with Content-Type
+	// text/verifabs (through a config adapter) · 5 the same with must-revalidate. Odd = forced.
+	Via         int
 	Force, Post bool
 	Adm         int // admin endpoint: 0 disabled, 1 enabled on a private unix socket, 2 enabled and provisioning the admin routers fails
 	Blocked     []int
@@ -87,7 +92,11 @@ func (c Cfg) String() string {
 		}
 		apps = strings.Join(s, ";")
 	}
-	return fmt.Sprintf("%d~%s~%s", c.Top, showMods(c.Logs), apps)
+	st := ""
+	if c.Stor.Key != 0 {
+		st = fmt.Sprintf("~%d:%d", c.Stor.Fault, c.Stor.Key)
+	}
+	return fmt.Sprintf("%d~%s~%s%s", c.Top, showMods(c.Logs), apps, st)
 }
 
 func b2i(b bool) int {
@@ -98,7 +107,15 @@ func b2i(b bool) int {
 }
 
 func (e Env) String() string {
-	return fmt.Sprintf("%d,%d,%d,%s,%s,%s", b2i(e.Force), b2i(e.Post), e.Adm, showNats(e.Blocked), showNats(e.PP), showNats(e.PS))
+	return fmt.Sprintf("%d,%d,%d,%s,%s,%s", e.via(), b2i(e.Post), e.Adm, showNats(e.Blocked), showNats(e.PP), showNats(e.PS))
+}
+
+// via: the canonical number of the submission path (Force decides when Via was left 0)
+func (e Env) via() int {
+	if e.Via == 0 && e.Force {
+		return 1
+	}
+	return e.Via
 }
 
 func (o Op) String() string {
@@ -236,8 +253,16 @@ func logsOk(l []Mod) bool {
 
 func parseCfg(s string) (Cfg, bool) {
 	p := strings.Split(s, "~")
-	if len(p) != 3 {
+	if len(p) != 3 && len(p) != 4 {
 		return Cfg{}, false
+	}
+	var st Mod
+	if len(p) == 4 {
+		var ok bool
+		st, ok = parseMod(p[3])
+		if !ok || st.Key == 0 || st.Key > 3 {
+			return Cfg{}, false
+		}
 	}
 	t, ok1 := atoi(p[0])
 	l, ok2 := parseMods(p[1])
@@ -257,7 +282,7 @@ func parseCfg(s string) (Cfg, bool) {
 			apps = append(apps, a)
 		}
 	}
-	return Cfg{t, l, apps}, true
+	return Cfg{t, l, apps, st}, true
 }
 
 func namesOk(l []int) bool {
@@ -276,7 +301,8 @@ func parseEnv(s string) (Env, bool) {
 	if len(p) != 6 {
 		return Env{}, false
 	}
-	if (p[0] != "0" && p[0] != "1") || (p[1] != "0" && p[1] != "1") {
+	via, okv := atoi(p[0])
+	if !okv || via > 5 || len(p[0]) != 1 || (p[1] != "0" && p[1] != "1") {
 		return Env{}, false
 	}
 	adm, ok0 := atoi(p[2])
@@ -291,7 +317,7 @@ func parseEnv(s string) (Env, bool) {
 			return Env{}, false
 		}
 	}
-	return Env{p[0] == "1", p[1] == "1", adm, b, pp, ps}, true
+	return Env{via, via%2 == 1, p[1] == "1", adm, b, pp, ps}, true
 }
 
 // admConsistent: identical admin settings across the history — the endpoint is disabled in
